@@ -112,15 +112,49 @@ static void sweep_large(int tier, int rec, const char *prop, const char *statkey
     }
 }
 
+/* shapes at the limits (k+m = 32, k = 1, m = 1, m > k) with erasure sets built from the boundary indexes
+   (0, k-1, k, n-1, n-2): deterministic, whatever the seed */
+void sweep_boundary(int be, int rec, const char *prop, const char *statkey, int (*decodable)(cfg_t, uint64_t)) {
+    static const int shapes[][2] = { {28,4}, {16,16}, {31,1}, {1,31}, {24,8}, {20,12}, {4,28}, {30,2}, {1,1}, {2,1}, {17,15} };
+    for (unsigned si = 0; si < sizeof shapes / sizeof shapes[0]; si++) {
+        int k = shapes[si][0], m = shapes[si][1], n = k + m;
+        cfg_t c = { be, k, m, m, 1 + (int)(si % 2) };
+        stripe_t s;
+        if (stripe_make(&s, c, 1 + rnd(5 * k), 0, 0) != 0) { oracle_fail(prop, "cannot encode with be=%d (%d,%d)", be, k, m); continue; }
+        int cand[6] = { 0, k - 1, k, n - 1, n - 2, k / 2 };
+        for (int mask = 1; mask < 64; mask++) {
+            uint64_t g = 0;
+            for (int b = 0; b < 6; b++) if ((mask >> b) & 1) { int i = cand[b]; if (i >= 0 && i < n) g |= 1ull << i; }
+            if (!g || __builtin_popcountll(g) > m) continue;
+            int mode = decodable ? (decodable(c, g) == 1 ? 0 : 1) : 0;      /* codes that are not MDS: an error is allowed on singular sets */
+            sweep_dec(&s, g, (int)(mask & 1), 0, mode, prop);
+            if (rec) for (int i = 0; i < n; i++) if ((g >> i) & 1) sweep_rec(&s, g, i, mode, prop);
+            stat_add(statkey, 1);
+        }
+        /* the m highest and the m lowest fragments gone */
+        { uint64_t hi = 0, lo = 0; for (int i = 0; i < m; i++) { hi |= 1ull << (n - 1 - i); lo |= 1ull << i; }
+          int mh = decodable ? (decodable(c, hi) == 1 ? 0 : 1) : 0, ml = decodable ? (decodable(c, lo) == 1 ? 0 : 1) : 0;
+          sweep_dec(&s, hi, 0, 0, mh, prop); sweep_dec(&s, lo, 0, 0, ml, prop);
+          if (rec) { sweep_rec(&s, hi, n - 1, mh, prop); sweep_rec(&s, lo, 0, ml, prop); } }
+        stripe_free(&s);
+    }
+}
+
 /* ======================================================================= rt (C01) */
 static void rt_one(stripe_t *s, uint64_t gone, int variant, int force) {
-    char *fr[80]; int n = survivors(s, gone, fr);
+    char *fr[160]; int n = survivors(s, gone, fr);
     int misalign = 0;
     switch (variant) {
     case 1: shuffle(fr, n); break;
     case 2: if (n) { fr[n] = fr[rnd(n)]; n++; shuffle(fr, n); } break;          /* duplicate */
     case 3: misalign = 1 + (int)rnd(14); break;
     case 4: shuffle(fr, n); misalign = 1 + (int)rnd(14); if (n) { fr[n] = fr[0]; n++; } break;
+    case 5: if (n && s->flen < 400) {   /* far more entries than the stripe has fragments: one survivor many times, in front or behind */
+                char *rep = fr[rnd(n)]; int extra = 28 + (int)rnd(12), front = (int)rnd(2);
+                if (front) { memmove(fr + extra, fr, sizeof(char *) * n); for (int i = 0; i < extra; i++) fr[i] = rep; }
+                else for (int i = 0; i < extra; i++) fr[n + i] = rep;
+                n += extra;
+            } break;
     default: break;
     }
     int v = op_dec(s->c, force, s->flen, n, fr, misalign, s->data, s->len);
@@ -147,13 +181,24 @@ void suite_rt(int tier) {
         int sizes[5] = { 0, 1, tol, (int)rnd(tol + 1), tol };
         for (int q = 0; q < 5; q++) {
             if (sizes[q] > tol) continue;
-            rt_one(&s, random_erasures(s.n, sizes[q]), (int)rnd(5), (int)rnd(2));
+            rt_one(&s, random_erasures(s.n, sizes[q]), (int)rnd(6), (int)rnd(2));
         }
         stripe_free(&s);
     }
     /* direct oracle, exhaustive over erasure sets (every XOR table, small RS codes) */
     sweep_all(tier, 0, 0, "C01", "rt.sweep_sets");
+    /* sequences of calls on one instance */
+    for (int n = 3; n <= (tier ? 9 : 7); n++) for (int k = 1; k < n - 1; k++) {
+        cfg_t c = { 6, k, n - k, n - k, 1 + (int)rnd(2) }; stripe_t s;
+        if (stripe_make(&s, c, 1 + rnd(8 * k), 0, 0) == 0) { sweep_neighbours(&s, 0, "C01", "rt.sequence_pairs"); stripe_free(&s); }
+    }
+    for (int x = 0; x < n_xor_shapes; x++) {
+        if (xor_shapes[x][0] + xor_shapes[x][1] > (tier ? 14 : 11)) continue;
+        cfg_t c = { 3, xor_shapes[x][0], xor_shapes[x][1], xor_shapes[x][2], 1 }; stripe_t s;
+        if (stripe_make(&s, c, 1 + rnd(60), 0, 0) == 0) { sweep_neighbours(&s, 0, "C01", "rt.sequence_pairs"); stripe_free(&s); }
+    }
     sweep_large(tier, 0, "C01", "rt.large");
+    sweep_boundary(6, 0, "C01", "rt.boundary_sets", NULL);
     /* every flat-XOR table: all erasure sets below hd (thorough) / a sample (quick) */
     for (int x = 0; x < n_xor_shapes; x++) {
         cfg_t c = { 3, xor_shapes[x][0], xor_shapes[x][1], xor_shapes[x][2], 1 + (int)rnd(2) };
@@ -211,6 +256,12 @@ static void nsc_one(stripe_t *s, uint64_t gone, int dup) {
 void suite_nsc(int tier) {
     /* direct oracle, exhaustive over erasure sets up to one beyond the tolerance */
     sweep_all(tier, 1, 1, "C02", "nsc.sweep_sets");
+    sweep_boundary(6, 1, "C02", "nsc.boundary_sets", NULL);
+    /* sequences of calls on one instance (state kept between calls) */
+    for (int n = 3; n <= (tier ? 8 : 7); n++) for (int k = 1; k < n - 1; k++) {
+        cfg_t c = { 6, k, n - k, n - k, 1 + (int)rnd(2) }; stripe_t s;
+        if (stripe_make(&s, c, 1 + rnd(8 * k), 0, 0) == 0) { sweep_neighbours(&s, n <= 6, "C02", "nsc.sequence_pairs"); stripe_free(&s); }
+    }
     /* small codes: every subset of the stripe */
     for (int x = 0; x < n_xor_shapes; x++) {
         cfg_t c = { 3, xor_shapes[x][0], xor_shapes[x][1], xor_shapes[x][2], 1 };
@@ -305,7 +356,12 @@ void suite_recon(int tier) {
     }
     /* direct oracle, exhaustive over erasure sets, every missing member rebuilt */
     sweep_all(tier, 1, 0, "C03", "recon.sweep_sets");
+    for (int n = 3; n <= (tier ? 8 : 6); n++) for (int k = 1; k < n - 1; k++) {
+        cfg_t c = { 6, k, n - k, n - k, 2 }; stripe_t s;
+        if (stripe_make(&s, c, 1 + rnd(8 * k), 0, 0) == 0) { sweep_neighbours(&s, 1, "C03", "recon.sequence_pairs"); stripe_free(&s); }
+    }
     sweep_large(tier, 1, "C03", "recon.large");
+    sweep_boundary(6, 1, "C03", "recon.boundary_sets", NULL);
     /* XOR: every table, every set below hd, every destination */
     for (int x = 0; x < n_xor_shapes; x++) {
         cfg_t c = { 3, xor_shapes[x][0], xor_shapes[x][1], xor_shapes[x][2], 2 };
@@ -369,6 +425,10 @@ void suite_rsmat(int tier) {
         cfg_t c = { 6, k, m, m, 1 };
         size_t bs = 2 * (1 + (t % 8)) + (rnd(4) == 0 ? 16 * rnd(20) : 0);
         if (t % 20 == 7) { bs = 2 * (8192 + rnd(200000)); if (k > 6) k = 1 + (int)rnd(6); if (m > 3) m = 1 + (int)rnd(3); c = (cfg_t){ 6, k, m, m, 1 }; }   /* bulk paths; oracle only for the bytes */
+        if (t % 4 == 1) {   /* medium blocks (1-8 KiB: unrolled / fused kernels) for every residue of k modulo 8 */
+            static const int ks[] = { 3, 7, 2, 5, 11, 4, 6, 9, 15, 1, 8, 13, 10, 12, 14, 16 };
+            k = ks[(t / 4) % 16]; m = 2 + (int)rnd(3); bs = 2 * (512 + rnd(3584)); c = (cfg_t){ 6, k, m, m, 1 };
+        }
         size_t len = (size_t)k * bs - (rnd(3) == 0 ? rnd(2 * k) % (k * bs) : 0);
         if (len == 0) len = 1;
         unsigned char *d = gen_data(len, (int)rnd(3));
@@ -486,9 +546,8 @@ void suite_xor(int tier) {
     sweep_large(tier, 1, "C05", "xor.large");
     /* the box of shapes around the whitelist */
     for (int k = -1; k <= 33; k++) for (int m = -1; m <= 33; m++) for (int hd = 0; hd <= 7; hd++) {
-        int interesting = (hd == 3 || hd == 4) && (m == 3 || m == 5 || m == 6 || m == 4 || m == 7) && k >= 2 && k <= 22;
+        int interesting = (m >= 2 && m <= 8) && k >= 1 && k <= 23;       /* the whole neighbourhood of the tables, every hd */
         if (!tier && !interesting && rnd(40) != 0) continue;
-        if (!tier && interesting && rnd(3) != 0) continue;
         op_create(3, k, m, hd, 0);
         stat_add("xor.create_box", 1);
     }
